@@ -49,6 +49,8 @@ thread_local! {
     /// fault injection: the next `on_exit` of the outermost recording layer (layer 1) on this thread panics,
     /// after every layer has been told about the exit
     pub static PANIC_NEXT_ON_EXIT: std::cell::Cell<bool> = std::cell::Cell::new(false);
+    /// fault injection: the next `on_exit` of *any* recording layer on this thread panics (after logging)
+    pub static PANIC_ON_EXIT_ANY: std::cell::Cell<bool> = std::cell::Cell::new(false);
     /// the same for `on_close` (the span must be removed and its parent released all the same)
     /// (holds the id of the span whose `on_close` panics; 0 = none)
     pub static PANIC_NEXT_ON_CLOSE: std::cell::Cell<u64> = std::cell::Cell::new(0);
@@ -255,6 +257,10 @@ where
     fn on_exit(&self, id: &Id, ctx: Context<'_, C>) {
         let cur = ctx.lookup_current().map(|s| s.id().into_u64()).unwrap_or(0);
         self.push(LRec { kind: "on_exit", id: id.into_u64(), cur, flag: ctx.span(id).is_some(), ..Default::default() });
+        if PANIC_ON_EXIT_ANY.with(|c| c.replace(false)) {
+            crate::fw::fault("panic_in_filtered_layer_on_exit");
+            panic!("injected panic inside a filtered layer's on_exit");
+        }
         if self.layer == 1 && PANIC_NEXT_ON_EXIT.with(|c| c.replace(false)) {
             crate::fw::fault("panic_in_on_exit");
             panic!("injected panic inside Subscribe::on_exit");
